@@ -22,6 +22,7 @@ func init() {
 		Run: func(c *Ctx) {
 			runC18(c)
 			runC18VarKinds(c)
+			runFieldIdentity(c, "C18-FIELDID")
 			base(c, "DECLARED", "STATE", "ALIAS", "TEXT")
 			importRules(c, "C02", runC02Loop, "C18-LOOP", "every walker evaluates every rule item of a field: its rule loop leaves only through its header (rule C02-LOOP) — a walker that stops early at some item disagrees with its siblings on the rules after it", 4, nil)
 		},
@@ -389,4 +390,52 @@ func runC18VarKinds(c *Ctx) {
 	default:
 		c.Check(len(bad) == 0 && n >= 81, "C18-VARKINDS", fnName(fn), "table", fn.Pos(), fmt.Sprintf("%d (kind, flag) cases agree", n), uniqJoin(append(bad, fmt.Sprintf("%d cases", n)), 4))
 	}
+}
+
+// runFieldIdentity: in the struct walker the value judged (or descended into) for a field is
+// the field at the recorded offset of the very cache entry whose name and rule list are used:
+// value = <object>.Field(<entry>.offset) and field name = <entry>.name for the same <entry>.
+// Reading the value by any other index (the position in a compacted list, a loop counter)
+// applies one field's rules to its neighbour as soon as some field is left out of the list.
+func runFieldIdentity(c *Ctx, rule string) {
+	c.Rule(rule, "struct walker: value = object.Field(entry.offset) and name = entry.name for the same cached entry, at every rule call and every nested descent", 1)
+	wl := runWalkLayers(c.P)
+	var bad []string
+	n := 0
+	check := func(fld, val, at string) {
+		n++
+		c.Sites++
+		if !strings.HasSuffix(fld, ".name") {
+			bad = append(bad, at+": the field name does not come from a cached field entry: "+shorten(fld, 80))
+			return
+		}
+		entry := strings.TrimSuffix(fld, ".name")
+		if !strings.Contains(val, ".Field("+entry+".offset)") {
+			bad = append(bad, at+": the value is not read at the recorded offset of the entry that names the field (value "+shorten(val, 90)+")")
+		}
+	}
+	for _, rc := range ruleCalls(wl) {
+		if !strings.Contains(fnName(rc.we.E.Site.Parent()), "VStruct") {
+			continue
+		}
+		check(rc.fld, rc.v, c.P.Pos(instrPos(rc.we.E.Site)))
+	}
+	for _, we := range walkEvents(wl, "call") {
+		a := we.E.Args
+		name, _ := isCstStr(a[0])
+		if (name != "(*valid.VStruct).required" && name != "(*valid.VStruct).exist") || we.E.Fn == nil || we.E.Fn.Name() != "validate" {
+			continue
+		}
+		// required(structName, fieldName, cusMsg, value) / exist(flag, structName, fieldName, cusMsg, value)
+		var fld, val string
+		if name == "(*valid.VStruct).required" && len(a) >= 6 {
+			fld, val = keyOf(a[3]), keyOf(a[5])
+		} else if len(a) >= 7 {
+			fld, val = keyOf(a[4]), keyOf(a[6])
+		} else {
+			continue
+		}
+		check(fld, val, c.P.Pos(instrPos(we.E.Site)))
+	}
+	c.Check(len(bad) == 0 && n > 0, rule, "(*valid.VStruct).validate", "field-identity", token.NoPos, fmt.Sprintf("%d uses of a field value, all read at the entry's own offset", n), uniqJoin(append(bad, fmt.Sprintf("%d uses", n)), 3))
 }
